@@ -219,7 +219,7 @@ fn predelegated_jobs(tier: Tier, v: &mut Vec<Job>) {
         let mut run = RunCfg::parallel(2);
         run.slow_db = true;
         let bound = match (tier, seq.len()) {
-            (Tier::Quick, 2) => 2,
+            (Tier::Quick, 2) => if seq[0] <= 1 { 2 } else { 1 },
             // quick: bound 2 where a reader of A is followed by a toucher of B after the change
             (Tier::Quick, _) => if seq[0] <= 1 && matches!(seq[1], 2 | 4) && matches!(seq[2], 3 | 5 | 6) { 2 } else { 1 },
             (Tier::Thorough, 2) => 3,
@@ -257,7 +257,15 @@ pub fn jobs(tier: Tier) -> Vec<Job> {
         for &spec in specs {
             let Some(case) = build_case("c09", spec, &db, &templates, &seq) else { continue };
             let bound = match (tier, seq.len()) {
-                (Tier::Quick, 2) if spec == SpecId::PRAGUE => 2,
+                // quick: bound 2 on the pairs that are both about the delegated account A
+                // quick: bound 2 on the pairs "code of A changes, then A is used"
+                (Tier::Quick, 2)
+                    if spec == SpecId::PRAGUE &&
+                        seq.iter().all(|&t| templates[t].tags.contains(&"A")) &&
+                        ["set(", "repoint(", "clear(", "two(", "repeated(", "selfauth(", "chain0("].iter().any(|k| templates[seq[0]].label.starts_with(k)) =>
+                {
+                    2
+                }
                 (Tier::Quick, _) => 1,
                 (Tier::Thorough, 2) => 3,
                 (Tier::Thorough, _) => 2,
